@@ -53,7 +53,7 @@ func roundTrip(name string, prior, data []byte) string {
 			if pl, ok := l.(interface{ LayerPayload() []byte }); ok && spec.payload {
 				payload = append([]byte{}, pl.LayerPayload()...)
 			}
-			buf := gopacket.NewSerializeBuffer()
+			buf := usedBuffer()
 			if err := gopacket.SerializeLayers(buf, serOpts, ser, gopacket.Payload(payload)); err != nil {
 				return "sererr"
 			}
